@@ -236,6 +236,13 @@ def gen_pairs(c):
     return out
 
 
+def load_replay(c):
+    if not c.replay:
+        return None
+    body = json.load(open(c.replay))
+    return body.get("replay") if isinstance(body.get("replay"), dict) else None
+
+
 def main(argv):
     c = Check("C10", argv)
     ok, blog = build_repo(["hx_fields", "dedupe", "shard", "cache"])
@@ -260,6 +267,20 @@ def main(argv):
         lists.append(bytes(rng.choice(alphabet[:14] if rng.random() < 0.8 else alphabet) for _ in range(rng.randrange(1, 9))))
     lists = [l for l in lists if b"\0" not in l and b"\n" not in l or l == b"1\n"]
     rcases = gen_range_cases(c)
+    rp = load_replay(c)
+    rp_pair = None
+    if rp is not None:       # --replay: the recorded case is evaluated first, then the normal run
+        if rp.get("op") in ("ParseFields", "DefragmentFields") and rp.get("list") is not None:
+            lists.insert(0, rp["list"].encode("latin1"))
+        if rp.get("op") in ("RangeFields", "IndividualFields") and rp.get("line_hex") is not None:
+            rcases.insert(0, (int(rp["delim"]), rp["list"].encode("latin1"), bytes.fromhex(rp["line_hex"])))
+        if rp.get("kind") == "pair" and rp.get("stdin_hex"):
+            ls = bytes.fromhex(rp["stdin_hex"]).split(b"\n")
+            a = rp["args"]
+            if len(ls) >= 2:
+                dl = a[3].encode("latin1")
+                rs = canonical(cut_parse(a[1].encode("latin1")) or []) or []
+                rp_pair = (a[1].encode("latin1"), dl[0], ls[0], ls[1], selected(ls[0], dl, rs) == selected(ls[1], dl, rs))
     plines = ["Q " + hx(l) for l in lists] + ["P " + hx(l) for l in lists]
     rlines = ["R %d %s %s" % (d, hx(s), hx(l)) for d, s, l in rcases]
     vsel = [x for i, x in enumerate(rcases) if i % 4 == 0]
@@ -337,6 +358,8 @@ def main(argv):
 
     # ---------------- tool level: the key relation on line pairs
     pairs = gen_pairs(c)
+    if rp_pair is not None:
+        pairs.insert(0, rp_pair)
     for spec, d, l1, l2, same in pairs:
         dl = bytes([d])
         data = l1 + b"\n" + l2 + b"\n"
